@@ -314,6 +314,33 @@ func (c *Ctx) ruleExcerpt() {
 				c.ok("EXCERPT/DEGRADE", rcons, P.Pos(r.Pos()), "no excerpt when the file cannot be read")
 				return
 			}
+			// one return statement for the filled and the empty window (`return excerpt` at the join behind the loop):
+			// the ways into it that do not come out of the loop are the "empty" returns, each decided at its own edge
+			if len(b.Preds) >= 2 {
+				fromLoop, okEdges, nEdges := false, true, 0
+				for _, p := range b.Preds {
+					if dominates(lp.head, p) {
+						fromLoop = true
+						continue
+					}
+					nEdges++
+					lcE := c.newLin(p)
+					if ifi, isIf := lastInstr(p).(*ssa.If); isIf && len(p.Succs) == 2 && p.Succs[0] != p.Succs[1] {
+						lcE.condFacts(ifi.Cond, p.Succs[0] == b)
+					}
+					lE := lcE.of(lineParam)
+					nE := lcE.lenVar(srcBase)
+					lcE.facts = append(lcE.facts, lE.add(linConst(1), -1), geq(nE, lE))
+					if !lcE.prove(linConst(-1)) {
+						okEdges = false
+					}
+				}
+				if fromLoop && nEdges > 0 {
+					c.check(okEdges, "EXCERPT/DEGRADE", rcons, P.Pos(r.Pos()), "no excerpt only when the file does not have the reported line (every way into the common return that does not come out of the loop)",
+						"an empty excerpt is returned although the file is readable and has the reported line (1 <= line <= len(lines) is consistent with the conditions of a way into this return that does not pass the loop)")
+					return
+				}
+			}
 			lc3 := c.newLin(b)
 			l3 := lc3.of(lineParam)
 			n3 := lc3.lenVar(srcBase)
